@@ -398,6 +398,8 @@ emit("done", id, tables > 0)
 // runTaint: N states in goroutines write their own id into every library
 // table, type metatable, method table and function environment they can
 // reach, over and over, and must never read back another state's id.
+const sameTextSrc = "local ok, m = pcall(function()\n  error('boom')\nend)\nreturn m, debug.getinfo(1, 'S').source\n"
+
 func runTaint(c *fw.Ctx, idx int, count bool) {
 	cs := Case{Kind: "taint", Idx: idx}
 	c.Begin(cs)
@@ -436,12 +438,40 @@ func runTaint(c *fw.Ctx, idx int, count bool) {
 			case len(trace) != 1 || trace[0] != want:
 				bad = fmt.Sprintf("state %d read another state's mark in one of its library tables: %v", g, trace)
 			}
+			if bad == "" {
+				// every state loads the very same text, each under its own chunk name: what the text observes of
+				// its name (error positions, debug.getinfo) is a function of this state's Load call alone
+				name := fmt.Sprintf("chunk-%d-of-state-%d.lua", idx, g)
+				var msg, source string
+				o := gl.Protect(func() error {
+					fn, err := L.Load(strings.NewReader(sameTextSrc), name)
+					if err != nil {
+						return err
+					}
+					L.Push(fn)
+					if err := L.PCall(0, 2, nil); err != nil {
+						return err
+					}
+					msg, source = L.Get(-2).String(), L.Get(-1).String()
+					L.Pop(2)
+					return nil
+				})
+				switch {
+				case o.GoPanic != nil:
+					bad = "Go panic: " + o.PanicStr
+				case o.Err != nil:
+					bad = "same-text script failed: " + errClass(o.Err.Error())
+				case !strings.HasPrefix(msg, name+":2:") || !strings.Contains(source, name):
+					bad = fmt.Sprintf("state %d loaded the shared text as %q but its error position reads %q and debug.getinfo(1,'S').source %q", g, name, msg, source)
+				}
+			}
 		}(g)
 	}
 	wg.Wait()
 	if count {
 		c.Count("taint_scenarios", 1)
 		c.Count("taint_states", int64(N))
+		c.Count("same_text_loaded_under_distinct_chunk_names", int64(N))
 	}
 	if bad != "" {
 		cs.Diff = bad
